@@ -10,11 +10,12 @@ DST="$HERE/seeded/$ID"; mkdir -p "$DST"
 cp "$SRC/patch.diff" "$SRC"/*_test.go "$DST/"
 OUT=$("$HERE/tools/try_patch.sh" "$SRC/patch.diff" "$@" 2>&1)
 echo "$OUT" | tail -4 | cut -c1-300
-python3 - "$SRC" "$DST" <<PY
-import json,sys,re
+printf '%s' "$OUT" > "$DST/.tryout.txt"
+python3 - "$SRC" "$DST" <<'PY'
+import json,sys,re,os
 src,dst=sys.argv[1:3]
 m=json.load(open(src+"/meta.json")); c=json.load(open(src+"/confirm.json"))
-out='''$OUT'''
+out=open(dst+"/.tryout.txt",errors="replace").read(); os.remove(dst+"/.tryout.txt")
 caught=re.findall(r"CAUGHT-BY:(.*)",out)
 caught=caught[-1].split() if caught else []
 caught=[x for x in caught if x!="none"]
